@@ -77,7 +77,7 @@ func (s *Sim) Restore(st *SimState) {
 	vtime.Advance(st.clock)
 	vsched.Reset()
 	s.Live, s.Alt = copyBoolMap(st.live), copyBoolMap(st.alt)
-	s.Problems, s.AdvSeen = nil, nil
+	s.Problems, s.AdvSeen, s.AdvTorn = nil, nil, nil
 	s.Held, s.HeldDesc, s.holdSite, s.holdCut, s.HeldNbr = nil, "", "", false, -1
 	s.InFlight = nil
 	for i, n := range s.Nodes {
